@@ -66,6 +66,14 @@ def base_ns(draw=None, probes=0):
                      dict(k='var', ref=dict(r='name', n='td')),
                      dict(k='text', s=')')]),
     )
+    ns['tr'] = dict(t='tmpl', defaults={}, ast=[
+        dict(k='text', s='(tr'),
+        dict(k='return', ref=dict(r='name', n='vn')),
+        dict(k='text', s='never)')])
+    ns['tx'] = dict(t='tmpl', defaults=dict(td='x'), ast=[
+        dict(k='text', s='(tx'),
+        dict(k='var', ref=dict(r='name', n='fr'), opts=[]),
+        dict(k='text', s='never)')])
     for i in range(probes):
         ns['p%d' % i] = dict(t='probe', id=i)
     return ns
@@ -264,16 +272,32 @@ def node_of(cfg, k, depth, scope):
                              ['ArithmeticError', 'VfC']]),
             body(cfg, d, scope + ('error_type', 'error_value'))),
             min_size=1, max_size=3).map(dedupe_default)
+        tbody = body(cfg, d, scope)
+        if 'boom' in cfg.kinds:
+            # make the try body raise (or return) more often than chance
+            def insert(b, extra, pos):
+                if extra is None:
+                    return b
+                b = list(b)
+                b.insert(pos % (len(b) + 1), extra)
+                return b
+            extras = [st.none(), node_of(cfg, 'boom', d, scope)]
+            if 'raise' in cfg.kinds:
+                extras += [node_of(cfg, 'raise', d, scope)] * 2
+            if 'return' in cfg.kinds:
+                extras.append(node_of(cfg, 'return', d, scope))
+            tbody = st.builds(insert, tbody, st.one_of(extras),
+                              st.integers(0, 5))
         exc = st.builds(
             lambda b, hs, els, eol: dict(k='try', body=b, handlers=hs,
                                          eol=eol, **{'else': els,
                                                      'finally': None}),
-            body(cfg, d, scope), handlers,
+            tbody, handlers,
             st.one_of(st.none(), body(cfg, d, scope)), e(6))
         fin = st.builds(
             lambda b, f, eol: dict(k='try', body=b, handlers=[], eol=eol,
                                    **{'else': None, 'finally': f}),
-            body(cfg, d, scope), body(cfg, d, scope), e(3))
+            tbody, body(cfg, d, scope), e(3))
         return st.one_of(exc, exc, fin)
     if k == 'comment':
         return st.builds(lambda b, eol: dict(k='comment', body=b, eol=eol),
@@ -310,7 +334,8 @@ def node_of(cfg, k, depth, scope):
             dict(k='var', ref=dict(r='expr', e=E('name', n='cu')), opts=[]),
         ])
     if k == 'sub':
-        return st.just(dict(k='var', ref=dict(r='name', n='ta'), opts=[]))
+        return st.sampled_from(['ta', 'ta', 'tr', 'tx']).map(
+            lambda n: dict(k='var', ref=dict(r='name', n=n), opts=[]))
     raise ValueError(k)
 
 
